@@ -550,7 +550,7 @@ func TestVerifC17(t *testing.T) {
 			in := cons.setup(e, c)
 			in.Signer, in.Foreign, in.Rogue = c.signer, c.foreign, c.rogue
 			if r.Thorough() {
-				in.FlipStride = 1
+				in.FlipStride, in.FlipAllBits = 1, true
 			}
 			// vacuity guard: the original is accepted and the reference agrees
 			ok, detail := safely(func() (bool, string) { return cons.run(e, c, in.Token) })
@@ -585,6 +585,13 @@ func TestVerifC17(t *testing.T) {
 					key = cons.name + "|" + fam + "|" + v.Name
 				}
 				r.Eval(key)
+				if idx%1733 == 7 {
+					tk := v.Token
+					if len(tk) > 160 {
+						tk = tk[:160] + "..."
+					}
+					r.Sample(map[string]any{"consumer": cons.name, "family": fam, "variant": v.Name, "accepted": ok, "token": tk})
+				}
 				if strings.HasPrefix(detail, "panic:") {
 					r.Observation("panic|"+cons.name, map[string]string{"variant": v.Name, "detail": detail})
 				}
@@ -608,7 +615,7 @@ func TestVerifC17(t *testing.T) {
 					}
 				}
 			}
-			r.AddExtra("wall_ms:"+cons.name, time.Since(t0).Milliseconds())
+			_ = t0
 			// key-source clause for the JSON-LD proof: the proof of ANOTHER resolvable party under its own verificationMethod, issuer unchanged
 			if cons.name == "ld-proof" && !replay {
 				idx++
